@@ -163,6 +163,8 @@ GenFileOp(p, g) ==
       loopAfterPack |-> TRUE,               \* err = 1. / cnt = 0 are assigned after the variables are packed
       tol      |-> p.tol,                  \* self.Err_Tolerance / self.MaxTime written into the module
       maxTime  |-> p.maxTime,
+      exoVerbatim |-> TRUE,                \* every exogenous path is declared as  self.<name> = <the block's own
+                                           \* expression>  (a list, a tuple, a product, a parenthesised sum ...)
       vectorIsTuple |-> TRUE,              \* orig_vector, the unpacking of in_vec and the return value of the
                                            \* Iterator are tuples also when the block has ONE variable
       varList  |-> g.nonLagged,
@@ -236,7 +238,7 @@ NoBlock  == [endo |-> << >>, lagged |-> << >>, exos |-> << >>, ics |-> << >>, ma
              reduce |-> FALSE, tolText |-> ""]
 NoParser == [endo |-> << >>, lagged |-> << >>, exos |-> << >>, ics |-> << >>, maxTime |-> 0, tol |-> ""]
 NoGen    == [exos |-> << >>, all |-> << >>, nonLagged |-> << >>, eqReads |-> << >>]
-NoFile   == [tol |-> "", maxTime |-> 0, vectorIsTuple |-> TRUE, globals |-> {}, declReads |-> << >>, decl |-> << >>, pack |-> << >>, orig |-> << >>, iterUnpack |-> << >>, iterBinds |-> << >>,
+NoFile   == [tol |-> "", maxTime |-> 0, exoVerbatim |-> TRUE, vectorIsTuple |-> TRUE, globals |-> {}, declReads |-> << >>, decl |-> << >>, pack |-> << >>, orig |-> << >>, iterUnpack |-> << >>, iterBinds |-> << >>,
              iterReads |-> << >>, unpack |-> << >>, loopAfterPack |-> TRUE, varList |-> << >>, header |-> << >>]
 
 Init == /\ phase = "init" /\ ngen = 0 /\ first = NoBlock /\ blk = NoBlock /\ parser = NoParser /\ gen = NoGen /\ file = NoFile
@@ -339,6 +341,8 @@ C20_AttributesFromCurrentBlock ==
     HasFile => /\ file.tol = blk.tolText /\ file.maxTime = blk.maxTime
                /\ parser.endo = ParseOp(blk).endo /\ parser.lagged = blk.lagged /\ parser.ics = blk.ics
                /\ \A i \in DOMAIN parser.exos : parser.exos[i].name = "k" \/ parser.exos[i] \in Range(blk.exos)
+(* the module's exogenous series are the block's own path expressions, whatever their spelling *)
+C20_ExogenousDeclaredVerbatim == HasFile => file.exoVerbatim
 (* the iteration vector is a tuple whatever the number of variables *)
 C20_VectorIsTuple == HasFile => file.vectorIsTuple
 
